@@ -139,3 +139,54 @@ def clause_open_name_counts_shrinks(r, mir):
     r.inst(key, sample={"remove_calls": len(rem)})
     if not ok:
         r.violate(key, "Stack::pop_up_to no longer removes an open_name_counts entry when its count drops to zero: the map keeps an owned copy of every distinct tag name ever opened (uncharged growth with the document's vocabulary), and a later stray end tag of that name walks the stack for nothing", f.loc())
+
+
+def clause_rewrite_str_plumbing(r, mir):
+    """rewrite_str is the one-shot form of the same rewriter: the RewriteStrSettings -> Settings conversion forwards
+    every field of RewriteStrSettings (type-driven), and rewrite_str pins the encoding to UTF-8 with <meta charset>
+    switching off (its input is a &str)."""
+    adt = [a for p, a in mir.adts.items() if p.endswith("::RewriteStrSettings") or p == "RewriteStrSettings"]
+    conv = mir.fn("Settings::from[From]")
+    ag = [st["rv"] for b in conv.blocks for st in b["stmts"] if st["k"] == "assign" and st["rv"]["k"] == "agg" and (st["rv"].get("name") or "").endswith("Settings")]
+    if len(adt) != 1 or len(ag) != 1:
+        r.inst("RewriteStrSettings|conversion")
+        r.violate("RewriteStrSettings|conversion", "the RewriteStrSettings -> Settings conversion was not found in the expected form (one aggregate)", conv.loc())
+        return
+    src = dict(zip(ag[0]["fields"], [conv.deep(o) for o in ag[0]["ops"]]))
+    for fld in adt[0]["variants"][0]["fields"]:
+        nm = fld["name"]
+        key = "RewriteStrSettings." + nm + "|forwarded"
+        r.inst(key, sample={"field": nm, "source": src.get(nm)})
+        if src.get(nm) != "settings." + nm:
+            r.violate(key, f"the conversion RewriteStrSettings -> Settings takes `{nm}` from `{src.get(nm)}` instead of the caller's settings.{nm}: rewrite_str would ignore that setting (e.g. strict(false) silently staying strict) and behave differently from HtmlRewriter on the same input", conv.loc())
+    rs = mir.fn("rewriter::rewrite_str")
+    meta = [conv_ for conv_ in [(callee_key_(t), [rs.deep(a) for a in t["args"][1:]]) for bi, t in rs.calls()] if conv_[0].endswith("with_adjust_charset_on_meta_tag")]
+    enc = [c for c in [(callee_key_(t), [rs.deep(a) for a in t["args"][1:]]) for bi, t in rs.calls()] if c[0].endswith("Settings::with_encoding")]
+    r.inst("rewrite_str|utf8-pinned", sample={"meta": meta, "encoding": enc})
+    if len(meta) != 1 or not meta[0][1][0].startswith("const false") or len(enc) != 1 or "utf_8()" not in enc[0][1][0]:
+        r.violate("rewrite_str|utf8-pinned", f"rewrite_str no longer forces adjust_charset_on_meta_tag(false) and the UTF-8 encoding (meta: {meta}, encoding: {enc}): a <meta charset=...> in the &str input would switch the decoder and captured text would be re-encoded as garbage", rs.loc())
+
+
+def callee_key_(t):
+    from ..mirlib import callee_key
+    return callee_key(t)
+
+
+def clause_seq_mark_writes(r, mir):
+    """the look-ahead mark is (re)established on every entry and cleared on leave: enter_ch_sequence_matching assigns
+    Some(pos()) unconditionally (a re-entered state after a chunk boundary must not keep the offset of the old buffer),
+    leave_ch_sequence_matching assigns None; nothing else touches the field"""
+    ws = {}
+    for f, bi, st in mir.field_writes("TagScanner", "ch_sequence_matching_start"):
+        if mir.is_test_fn(f):
+            continue
+        ws.setdefault(f.key, []).append(f.deep(st["rv"]["o"]) if st["rv"]["k"] == "use" else st["rv"]["k"])
+    r.inst("seq-mark|writes", sample=ws)
+    e = ws.get("TagScanner::enter_ch_sequence_matching[StateMachine]", [])
+    l = ws.get("TagScanner::leave_ch_sequence_matching[StateMachine]", [])
+    en = mir.fn("TagScanner::enter_ch_sequence_matching[StateMachine]")
+    extra_calls = [callee_key_(t) for bi, t in en.calls() if not callee_key_(t).endswith("pos[StateMachine]")]
+    has_branch = any(b["term"]["k"] == "switch" for b in en.blocks if not b["cleanup"])
+    if set(ws) - {"TagScanner::enter_ch_sequence_matching[StateMachine]", "TagScanner::leave_ch_sequence_matching[StateMachine]", "TagScanner::new"} or \
+            len(e) != 1 or not e[0].endswith("Option::Some{TagScanner::pos[StateMachine](self)}") or extra_calls or has_branch or len(l) != 1 or not l[0].endswith("Option::None{}"):
+        r.violate("seq-mark|writes", f"TagScanner.ch_sequence_matching_start must be set to Some(pos()) unconditionally by enter_ch_sequence_matching and to None by leave_ch_sequence_matching (writes: {ws}, other calls in enter: {extra_calls}, branch in enter: {has_branch}): a mark kept from the previous chunk is an offset into a buffer that no longer exists — the consumed count lags or underflows", en.loc())
